@@ -78,43 +78,77 @@ def run(ctx):
             ctx.check(rel == "<=" and p.ret_shape() == "Ok(())" and not p.stores(), "C08-a", sh.key, "no GOAWAY when sent <= new",
                       "shutdown returns without sending on a path where sent %s new (stores: %d)" % (rel, len(p.stores())), "")
     # ------------------------------------------------------------------ C08-c
-    cl = ru.need(ctx, "C08-c", SV + "shutdown::{closure#0}::{closure#0}")
-    if cl:
-        o = fl.Flow(cl, prog).origin(fl.Place({"l": 0})) if hasattr(fl, "Place") else None
-        from engine.mir import Place
-        f = fl.Flow(cl, prog)
-        o = f.origin(Place({"l": 0}))
-        ok = o[0] == "call" and o[1] == "<h3::proto::stream::StreamId as core::ops::arith::Add<usize>>::add" and o[2][0] == ("param", 2, ())
-        inc = o[2][1] if ok else None
-        form = None
-        if ok:
-            x = inc
-            # accepted successor forms: n.saturating_add(1) | n + 1 (checked) | n.checked_add(1)...  where n is the captured max_requests
-            if x[0] == "call" and x[1].endswith("::saturating_add") and ru.const_int(x[2][1]) == 1:
-                form = "n.saturating_add(1)"
-            elif x[0] == "proj" and x[1][0] == "binop" and x[1][1].startswith("Add") and ru.const_int(x[1][3]) == 1:
-                form = "n + 1"
-            elif x[0] == "binop" and x[1].startswith("Add") and ru.const_int(x[3]) == 1:
-                form = "n + 1"
-        if form is None and ok:
-            # (id + n) + 1
-            pass
-        ctx.check(ok and form is not None, "C08-c", cl.key, "announced id = last accepted + (n + 1)",
-                  "server shutdown(n) derives the GOAWAY identifier from the last accepted request as %s; it must be the successor in "
-                  "request-id space advanced by n (id + (n+1)), otherwise GOAWAY announces an identifier that was already handed to the "
-                  "application (accept 0, shutdown(0) announces 0 and request 0 is still served)" % fl.fmt(o), form or "", cl.loc())
     so = ru.need(ctx, "C08-c", SV + "shutdown::{closure#0}")
+    explicit = False
     if so:
-        ps = [p for p in ru.all_paths(ctx, "C08-c", so, max_visits=1) if p.has_call(CI + "shutdown")]
-        ctx.floor("C08-c", "paths calling ConnectionInner::shutdown", len(ps), 1)
-        for p in ps[:1]:
-            e = p.calls(CI + "shutdown")[0]
-            a = e[3]
-            ok = pa.vfmt(a[1]).endswith(".sent_closing") and a[2][0] == "call" and a[2][1] == "core::option::Option::unwrap_or" and \
-                a[2][2][1] == ("const", "h3::proto::stream::StreamId::FIRST_REQUEST") and a[2][2][0][0] == "call" and \
-                a[2][2][0][1] == "core::option::Option::map" and pa.vfmt(a[2][2][0][2][0]).endswith(".last_accepted_stream")
-            ctx.check(ok, "C08-c", so.key, "id = last_accepted.map(successor).unwrap_or(FIRST_REQUEST), guard state = sent_closing",
-                      "server shutdown passes (%s, %s)" % (pa.vfmt(a[1]), pa.vfmt(a[2])[:200]), "")
+        # explicit form: `match last_accepted { Some(id) => id + (n+1), None => FIRST_REQUEST }` evaluated on each path
+        def inc_form_v(x):
+            if x[0] == "call" and x[1].endswith("::saturating_add") and expr.fold(x[2][1]) == 1:
+                return "n.saturating_add(1)"
+            if x[0] == "proj" and x[1][0] == "binop" and x[1][1].startswith("Add") and expr.fold(x[1][3]) == 1:
+                return "n + 1"
+            if x[0] == "binop" and x[1].startswith("Add") and expr.fold(x[3]) == 1:
+                return "n + 1"
+            return None
+        psx = [p for p in ru.all_paths(ctx, "C08-c", so, max_visits=1) if p.has_call(CI + "shutdown")]
+        st_ = {}
+        for p in psx:
+            la = [t[2] for t in p.tests if t[3][0] == "discr" and pa.vfmt(t[3][1]).endswith(".last_accepted_stream")]
+            if la:
+                st_.setdefault(la[0], []).append(p)
+        if set(st_) == {"Some", "None"}:
+            explicit = True
+            for p in st_["Some"]:
+                a_ = p.calls(CI + "shutdown")[0][3]
+                idv = a_[2]
+                ok = pa.vfmt(a_[1]).endswith(".sent_closing") and idv[0] == "call" and idv[1] == "<h3::proto::stream::StreamId as core::ops::arith::Add<usize>>::add" and \
+                    pa.vfmt(idv[2][0]).endswith(".last_accepted_stream<Some>.0") and inc_form_v(idv[2][1]) is not None
+                ctx.check(ok, "C08-c", so.key, "announced id = last accepted + (n + 1)",
+                          "server shutdown(n) derives the GOAWAY identifier from the last accepted request as %s; it must be the successor in "
+                          "request-id space advanced by n (id + (n+1)), otherwise GOAWAY announces an identifier that was already handed to the "
+                          "application (accept 0, shutdown(0) announces 0 and request 0 is still served)" % pa.vfmt(idv)[:160], "", None, p.describe())
+            for p in st_["None"]:
+                a_ = p.calls(CI + "shutdown")[0][3]
+                ctx.check(pa.vfmt(a_[1]).endswith(".sent_closing") and a_[2] == ("const", "h3::proto::stream::StreamId::FIRST_REQUEST"), "C08-c", so.key,
+                          "nothing accepted yet: FIRST_REQUEST, guard state = sent_closing", "server shutdown passes (%s, %s)" % (pa.vfmt(a_[1]), pa.vfmt(a_[2])[:120]), "")
+    if not explicit:
+        cl = ru.need(ctx, "C08-c", SV + "shutdown::{closure#0}::{closure#0}")
+        if cl:
+            o = fl.Flow(cl, prog).origin(fl.Place({"l": 0})) if hasattr(fl, "Place") else None
+            from engine.mir import Place
+            f = fl.Flow(cl, prog)
+            o = f.origin(Place({"l": 0}))
+            ok = o[0] == "call" and o[1] == "<h3::proto::stream::StreamId as core::ops::arith::Add<usize>>::add" and o[2][0] == ("param", 2, ())
+            inc = o[2][1] if ok else None
+            form = None
+            if ok:
+                x = inc
+                # accepted successor forms: n.saturating_add(1) | n + 1 (checked) | n.checked_add(1)...  where n is the captured max_requests
+                if x[0] == "call" and x[1].endswith("::saturating_add") and ru.const_int(x[2][1]) == 1:
+                    form = "n.saturating_add(1)"
+                elif x[0] == "proj" and x[1][0] == "binop" and x[1][1].startswith("Add") and ru.const_int(x[1][3]) == 1:
+                    form = "n + 1"
+                elif x[0] == "binop" and x[1].startswith("Add") and ru.const_int(x[3]) == 1:
+                    form = "n + 1"
+            if form is None and ok:
+                # (id + n) + 1
+                pass
+            ctx.check(ok and form is not None, "C08-c", cl.key, "announced id = last accepted + (n + 1)",
+                      "server shutdown(n) derives the GOAWAY identifier from the last accepted request as %s; it must be the successor in "
+                      "request-id space advanced by n (id + (n+1)), otherwise GOAWAY announces an identifier that was already handed to the "
+                      "application (accept 0, shutdown(0) announces 0 and request 0 is still served)" % fl.fmt(o), form or "", cl.loc())
+        so = ru.need(ctx, "C08-c", SV + "shutdown::{closure#0}")
+        if so:
+            ps = [p for p in ru.all_paths(ctx, "C08-c", so, max_visits=1) if p.has_call(CI + "shutdown")]
+            ctx.floor("C08-c", "paths calling ConnectionInner::shutdown", len(ps), 1)
+            for p in ps[:1]:
+                e = p.calls(CI + "shutdown")[0]
+                a = e[3]
+                ok = pa.vfmt(a[1]).endswith(".sent_closing") and a[2][0] == "call" and a[2][1] == "core::option::Option::unwrap_or" and \
+                    a[2][2][1] == ("const", "h3::proto::stream::StreamId::FIRST_REQUEST") and a[2][2][0][0] == "call" and \
+                    a[2][2][0][1] == "core::option::Option::map" and pa.vfmt(a[2][2][0][2][0]).endswith(".last_accepted_stream")
+                ctx.check(ok, "C08-c", so.key, "id = last_accepted.map(successor).unwrap_or(FIRST_REQUEST), guard state = sent_closing",
+                          "server shutdown passes (%s, %s)" % (pa.vfmt(a[1]), pa.vfmt(a[2])[:200]), "")
     ctx.check(prog.const("h3::proto::stream::StreamId::FIRST_REQUEST") == 0, "C08-c", "h3::proto::stream::StreamId::FIRST_REQUEST", "= stream 0",
               "FIRST_REQUEST = %s" % prog.const("h3::proto::stream::StreamId::FIRST_REQUEST"), "0")
 
